@@ -74,6 +74,14 @@ def obligations(tier):
                     continue
                 obs.append(Ob(f"long-window/{spec_name((kind, name, kw))}/tf={tf}/n={m}", dict(spec=[kind, name, kw], n=m, tf=tf, fill=False, sched="family"), EQ,
                               weight=10 * m, budget_s=240 if tier == "quick" else 3600, max_paths=20000 if tier == "quick" else 400000))
+    # one Hexital, several timeframes (base + T2 + T3, also with a Hexital-level timeframe), fed Candle objects: every
+    # timeframe's candles - OHLCV and the complete reading dicts - and every indexed Hexital.reading equal the batch run
+    for hextf in (None, "T2"):
+        nn = 7 if tier == "quick" else 9
+        obs.append(Ob(f"hexital-multi-timeframe/hexital-tf={hextf}/n={nn}", dict(n=nn, hextf=hextf), EQ, fn="run_multi_tf", weight=40, budget_s=600))
+    # the recorded finding (known_findings.json): a member timeframe that is NOT a multiple of the Hexital's own timeframe is
+    # seeded from the already collapsed base candles at construction, while appended candles reach it raw
+    obs.append(Ob("hexital-multi-timeframe/hexital-tf=T2/member-tf=T3 (not a multiple)/n=7", dict(n=7, hextf="T2", other="T3"), EQ, fn="run_multi_tf", weight=40, budget_s=600, selfcheck=False))
     # indicators chained inside a Hexital (one reads the other's output): batch vs every append schedule
     for n in ((5,) if tier == "quick" else (5, 6)):
         obs.append(Ob(f"hexital-chain/n={n}", dict(n=n), EQ, fn="run_chain", weight=20, budget_s=600))
@@ -104,6 +112,40 @@ def run_chain(ctx, P):
             inc.append(part if c > 1 else part[0])
             pos += c
         ctx.equal(f"chained incremental==batch[preload={k},chunks={'+'.join(map(str, chunks))}]", a, snap(inc.candles()))
+
+
+def run_multi_tf(ctx, P):
+    _, _, Candle, _, Hexital = lib()
+    n = P["n"]
+    cs = mk_candles(ctx, n)
+    level = dict(timeframe=P["hextf"]) if P.get("hextf") else {}
+
+    def members():
+        other = P.get("other") or ("T6" if P.get("hextf") else "T2")        # T4 / T6: multiples of a Hexital-level T2 (nested buckets)
+        return [build("EMA", dict(period=2)), build("SMA", dict(period=2), timeframe=other), build("WMA", dict(period=2), timeframe="T4"), build("TR", dict(), timeframe=other)]
+
+    def full(hx):
+        out = {tf: snap(lst) for tf, lst in hx.get_candles().items()}
+        names = list(hx.indicators)
+        for nm in names:
+            m = len(hx.indicator(nm).candles)
+            out["reading:" + nm] = [hx.reading(nm, index=i) for i in range(-m, m)]
+        return out
+    batch = Hexital("b", clone(cs), members(), **level)
+    batch.calculate()
+    a = full(batch)
+    ctx.observe("batch", a)
+    for k, chunks in schedules(n, "family"):
+        src = clone(cs)
+        inc = Hexital("i", src[:k], members(), **level)
+        if k:
+            inc.calculate()
+        pos = k
+        for c in chunks:
+            part = src[pos:pos + c]
+            inc.append(part if c > 1 else part[0])
+            pos += c
+        ctx.equal(f"multi-timeframe incremental==batch[preload={k},chunks={'+'.join(map(str, chunks))}]", a, full(inc))
 
 
 def common_kw(P):
@@ -146,8 +188,8 @@ def schedules(n, mode):
     return uniq
 
 
-def run(ctx, P):
-    spec = tuple(P["spec"][:3])
+def make_stream(ctx, P):
+    """the candle stream of an obligation: the grid step, the start offset and - with gap filling on - a hole of two buckets"""
     n = P["n"]
     step = P.get("step", 60)
     cs = mk_candles(ctx, n, step=step, start=GRID0 + step * P.get("start", 1))
@@ -161,6 +203,13 @@ def run(ctx, P):
         for i, c in enumerate(cs):
             if i >= 2:
                 c.timestamp = ctx.const_time(GRID0 + 60 * (P.get("start", 1) + i + 4))
+    return cs
+
+
+def run(ctx, P):
+    spec = tuple(P["spec"][:3])
+    n = P["n"]
+    cs = make_stream(ctx, P)
     batch = build_any(spec, candles=clone(cs), **common_kw(P))
     batch.calculate()
     a = snap(batch.candles)
